@@ -1101,20 +1101,26 @@ class TermCanvas(Canvas):
                 if idx + 2 < len(attrs) and attrs[idx + 1] == 5:
                     # 8 bit color specification
                     color = attrs[idx + 2]
-                    colors = max(256, colors)
-                    if attr == 38:
+                    if color > 255:
+                        pass  # not a palette index: ignored
+                    elif attr == 38:
                         fg = color
+                        colors = max(256, colors)
                     else:
                         bg = color
+                        colors = max(256, colors)
                     idx += 2
                 elif idx + 4 < len(attrs) and attrs[idx + 1] == 2:
                     # 24 bit color specification
                     color = (attrs[idx + 2] << 16) + (attrs[idx + 3] << 8) + attrs[idx + 4]
-                    colors = 2**24
-                    if attr == 38:
+                    if max(attrs[idx + 2 : idx + 5]) > 255:
+                        pass  # not an RGB triple: ignored
+                    elif attr == 38:
                         fg = color
+                        colors = 2**24
                     else:
                         bg = color
+                        colors = 2**24
                     idx += 4
             elif attr == 39:
                 # set default foreground color
